@@ -875,7 +875,7 @@ func Run(r *core.Run) {
 	nSlices := 1
 	if r.Thorough() {
 		genCfg = "HashGen.thorough.cfg"
-		nSlices = 12
+		nSlices = 8
 	}
 	genFiles := map[string]string{}
 	{
